@@ -40,8 +40,34 @@ def gen_problem(rng, kind, quick, level=1):
         m = models.nested(radii, [rng.choice([1.0, 0.0125, 0.33, 1.79, rng.uniform(0.05, 5)]) for _ in range(n)], level); m["info"]["topology"] = "nested"
     else: m = models.random_model(rng, level, kinds=(kind,)); m["info"]["topology"] = kind
     R = m["info"]["outer_radius"]; c = m["info"].get("centre", (0, 0, 0))
+    # declaration order of meshes / interfaces / domains in the .geom: as generated (innermost first), scalp first,
+    # scalp in the middle, random -- the unknown indices (vertex 0, last vertex) then fall on different surfaces
+    order = rng.choice(["as-generated", "reversed", "reversed", "rotated", "random"])
+    for key in ("meshes", "interfaces", "domains"):
+        l = list(m[key])
+        if order == "reversed": l.reverse()
+        elif order == "rotated": k = max(1, len(l) // 2); l = l[k:] + l[:k]
+        elif order == "random": rng.shuffle(l)
+        m[key] = l
+    m["info"]["declaration_order"] = order
     ne = rng.choice([1, 1, 3, 8]); nm = rng.choice([1, 1, 4, 7]); nd = rng.choice([1, 1, 2, 5])
-    eeg = models.sensors_on_sphere(rng, ne, c, R)
+    # electrodes: next to the first and the last vertex of every mesh of the interface that bounds Air (boundary unknown
+    # indices 0 / last of the sensor operator), the rest anywhere on the scalp
+    air = [b for n_, b in m["domains"] if n_ == "Air"]
+    outer_ifaces = [i for s_, i in air[0]] if air else []
+    outer_meshes = [mn for n_, ms in m["interfaces"] if n_ in outer_ifaces for s_, mn in ms]
+    special = []
+    for name, vs, ts in m["meshes"]:
+        if name in outer_meshes:
+            for vi in (0, len(vs) - 1):
+                t = [t for t in ts if vi in t][rng.randrange(len([t for t in ts if vi in t]))]
+                cen = tuple(sum(vs[a][k] for a in t) / 3.0 for k in range(3)); w = rng.choice([1.0, 0.97, 0.8])
+                p = tuple(w * vs[vi][k] + (1 - w) * cen[k] for k in range(3))
+                special.append(tuple(c[k] + 1.002 * (p[k] - c[k]) for k in range(3)))
+    rng.shuffle(special)
+    eeg = special[:ne] if rng.random() < 0.7 else []
+    eeg += models.sensors_on_sphere(rng, ne - len(eeg), c, R)
+    rng.shuffle(eeg)
     mpos = models.sensors_on_sphere(rng, nm, c, R * rng.uniform(1.15, 1.5)); mori = [models.random_unit(rng) for _ in mpos]
     # dipoles: inside the innermost region, away from the surfaces; for heads with a non-conductive part, some inside it
     dips = []
@@ -220,6 +246,7 @@ def main(replay=None):
         pb = gen_problem(ck.rng, kind, quick, level=2 if (not quick and mid in (5, 11)) else 1)    # thorough: two heads with 162-vertex meshes
         for sig, text, rep in run_problem(ck, hb, pb, mid, stats): ck.violation(sig, text, rep)
         key = "%s d%d e%d m%d" % (kind, len(pb["dips"]), len(pb["eeg"]), len(pb["mpos"])); dist[key] = dist.get(key, 0) + 1
+        ok = "order:" + pb["model"]["info"].get("declaration_order", "?"); dist[ok] = dist.get(ok, 0) + 1
         if len(samples) < 3: samples.append(json.dumps(dict(kind=kind, dips=pb["dips"][:2], eeg=pb["eeg"][:1]))[:300])
     ck.cov.update(evaluations=len(kinds) * 6, distinct_nontrivial=stats.get("usable", 0) * 6 + stats.get("discarded_cond", 0),
                   rule="one head = 6 gain paths; distinct non-trivial = paths of heads with cond(HeadMat) <= 1e8 compared with each other and with the reference, plus heads with a singular head matrix on which only the zero-source-column relation is checked; "
